@@ -46,6 +46,7 @@ def _from_export(rec, rnd):
     cfg = dict(rec['cfg'])
     cfg['kind'] = 'fsm'
     cfg['initv'] = 0
+    cfg.setdefault('xbad', [0] * cfg['n'])
     script = []
     stop_at = None
     for h in rec['hist']:
@@ -78,7 +79,8 @@ def _rand_fsm(rnd):
         idur.append(rnd.choice([ABSENTV, ABSENTV, NONEV, 0, 1, 2, 5, INFV]))
     cf = [[int(rnd.random() < 0.2) for _ in range(n)] for _ in range(m)]
     return {'n': n, 'm': m, 'trans': trans, 'any': any_, 'cf': cf, 'tev': tev, 'cdur': cdur,
-            'idur': idur, 'init': rnd.randint(1, n), 'kind': 'fsm', 'initv': 0}
+            'idur': idur, 'init': rnd.randint(1, n), 'kind': 'fsm', 'initv': 0,
+            'xbad': [int(rnd.random() < 0.15) for _ in range(n)]}
 
 
 def _timer_cfg(args):
@@ -89,13 +91,13 @@ def _timer_cfg(args):
         idur = [args['t_off'], args['t_on']]
     return {'n': 2, 'm': 3, 'trans': [[-1, -1], [-1, -1], [2, 1]], 'any': [2, 1, -1],
             'cf': [[0, nr], [nr, 0], [0, 0]], 'tev': [1, 2], 'cdur': [INFV, INFV], 'idur': idur,
-            'init': args['init'], 'kind': 'timer', 'initv': 0}
+            'init': args['init'], 'kind': 'timer', 'initv': 0, 'xbad': [0, int(bool(args.get('xbad')))]}
 
 
 def _inputexp_cfg(args):
     return {'n': 2, 'm': 1, 'trans': [[-1, -1]], 'any': [2], 'cf': [[0, 0]], 'tev': [0, 101],
             'cdur': [NONEV, NONEV], 'idur': [ABSENTV, args['duration']],
-            'init': 2 if args['initv'] else 1, 'kind': 'inputexp', 'initv': args['initv']}
+            'init': 2 if args['initv'] else 1, 'kind': 'inputexp', 'initv': args['initv'], 'xbad': [0, 0]}
 
 
 def _rand_script(rnd, cfg, horizon):
@@ -144,6 +146,7 @@ def stimuli(tier, seed, ctx):
                 't_off': rnd.choice([ABSENTV, NONEV, 0, 1, 2, 3, INFV]),
                 't_period': rnd.choice([1, 2, 3]) if per else ABSENTV,
                 'restartable': rnd.random() < 0.6, 'init': rnd.choice([1, 1, 2]),
+                'xbad': rnd.random() < 0.15,
                 'reps': [_rep(rnd) for _ in range(8)]}
         if args['t_period'] == ABSENTV and all(args[k] in (0, -1) for k in ('t_on', 't_off')):
             args['t_on'] = 2            # (astable with zero delays is an endless chain: excluded)
@@ -276,6 +279,8 @@ def execute(stim):
                     kw['t_on'] = _dur(args['t_on'], reps[0])
                 if args['t_off'] != ABSENTV:
                     kw['t_off'] = _dur(args['t_off'], reps[1])
+            if args.get('xbad'):
+                kw['on_exit_on'] = edzed.Event(edzed.Input('sink', initdef=0), 'nosuchevent')
             return edzed.Timer('blk', restartable=args['restartable'],
                                initdef=snames[args['init'] - 1], **kw)
         if kind == 'inputexp':
@@ -307,6 +312,11 @@ def execute(stim):
         for s in range(1, n + 1):
             if cfg['tev'][s - 1] and cfg['idur'][s - 1] != ABSENTV:
                 kw[f't_s{s}'] = _dur(cfg['idur'][s - 1], reps[(s + 3) % 8])
+        if any(cfg['xbad']):
+            sink = edzed.Input('sink', initdef=0)
+            for s in range(1, n + 1):
+                if cfg['xbad'][s - 1]:      # this on_exit event fails non-fatally
+                    kw[f'on_exit_s{s}'] = edzed.Event(sink, 'nosuchevent')
         return cls('blk', initdef=snames[cfg['init'] - 1], **kw)
 
     def factory(loop, clock):
